@@ -738,9 +738,67 @@ def h_zip_limit(ctx):
     return Outcome(f"zip-limit:{'returned' if r.ok else 'rej:' + r.etype}", vs, nontrivial=(over, cls, form))
 
 
+# ------------------------------------------------------------------ ECDH-1PU: the sender key is the one the caller gives, whatever the token names
+def h_sender_named(ctx):
+    """An ECDH-1PU message of Alice to Bob that names its sender ("skid"). Bob decrypts with a key set that holds the keys of every
+    party he knows (his own, Alice's, Mallory's - the one-JWKS layout) or with his key alone, and states the sender in one of the ways
+    the API allows. With Alice's key stated he gets the plaintext; with any other sender stated (Mallory's key with or without a kid,
+    a key set without Alice, a key set that holds Mallory's key under Alice's kid) he gets an error, never the plaintext."""
+    from joserfc import jwe
+    from joserfc.jwk import KeySet
+    scen.register_drafts()
+    alg = ctx.choose("alg", ["ECDH-1PU", "ECDH-1PU+A128KW", "ECDH-1PU+A256KW"])
+    kind = ctx.choose("key", ["P-256", "X25519"])
+    enc = ctx.choose("enc", ["A128CBC-HS256", "A256CBC-HS512"] if "KW" in alg else ["A128GCM", "A128CBC-HS256"])
+    form = ctx.choose("form", ["compact", "flattened", "general"])
+    skid_pos = ctx.choose("skid", ["protected", "none"] if form == "compact" else ["protected", "unprotected", "none"])
+    keyring = ctx.choose("decryption_key", ["bob alone", "set: bob, alice, mallory", "set: alice, mallory, bob", "set: bob, alice's public key"])
+    stated = ctx.choose("sender_stated", ["alice", "alice (in a set)", "mallory", "mallory with kid mallory", "mallory with alice's kid", "set without alice",
+                                          "set: mallory under alice's kid", "bob's own key", "none"])
+    bob, alice, mallory = scen.key(kind, 0), scen.key(kind, 5), scen.key(kind, 6)
+    K = lambda j, kid=None, private=True: A.jkey({**(j if private else rjwk.public_of(j)), **({"kid": kid} if kid else {})}, "dict")  # noqa
+    algs = [alg, enc]
+    prot = {"alg": alg, "enc": enc}
+    if skid_pos == "protected":
+        prot["skid"] = "alice"
+    pt = b"from alice"
+    if form == "compact":
+        prot["kid"] = "bob"      # the message names its recipient, so that a key set can be the decryption key
+        tok = call(jwe.encrypt_compact, prot, pt, K(bob, "bob", False), algorithms=algs, sender_key=K(alice, "alice"))
+    else:
+        def enc_json():
+            obj = jwe.GeneralJSONEncryption(prot, pt) if form == "general" else jwe.FlattenedJSONEncryption(prot, pt)
+            obj.add_recipient({"kid": "bob", **({"skid": "alice"} if skid_pos == "unprotected" else {})}, K(bob, "bob", False))
+            return jwe.encrypt_json(obj, None, algorithms=algs, sender_key=K(alice, "alice"))
+        tok = call(enc_json)
+    if not tok.ok:
+        return Outcome("encrypt-failed", [viol("ECDH-1PU encryption with a named sender fails", f"{alg} {kind} {enc} {form} skid={skid_pos}: {tok.exc!r}")], nontrivial=None)
+    key = {"bob alone": lambda: K(bob, "bob"), "set: bob, alice, mallory": lambda: KeySet([K(bob, "bob"), K(alice, "alice"), K(mallory, "mallory")]),
+           "set: alice, mallory, bob": lambda: KeySet([K(alice, "alice"), K(mallory, "mallory"), K(bob, "bob")]),
+           "set: bob, alice's public key": lambda: KeySet([K(bob, "bob"), K(alice, "alice", False)])}[keyring]()
+    sender = {"alice": lambda: K(alice, "alice", False), "alice (in a set)": lambda: KeySet([K(mallory, "mallory", False), K(alice, "alice", False)]),
+              "mallory": lambda: K(mallory, None, False), "mallory with kid mallory": lambda: K(mallory, "mallory", False),
+              "mallory with alice's kid": lambda: K(mallory, "alice", False), "set without alice": lambda: KeySet([K(mallory, "mallory", False), K(bob, "bob", False)]),
+              "set: mallory under alice's kid": lambda: KeySet([K(mallory, "alice", False)]), "bob's own key": lambda: K(bob, "bob", False), "none": lambda: None}[stated]()
+    if stated == "alice (in a set)" and skid_pos == "none":
+        return Outcome("n/a", [], nontrivial=None)       # a set of senders needs the token to say which one
+    fn = jwe.decrypt_compact if form == "compact" else jwe.decrypt_json
+    r = call(lambda: bytes(fn(copy.deepcopy(tok.value), key, algorithms=algs, sender_key=sender).plaintext))
+    vs = []
+    what = f"{alg} {kind} {enc} {form} skid={skid_pos}; decryption key: {keyring}; sender stated: {stated}"
+    if stated.startswith("alice"):
+        if not r.ok or r.value != pt:
+            vs.append(viol("ECDH-1PU message is not decrypted with the right recipient and sender keys", f"{what}: {r.exc!r}"))
+    elif r.ok:
+        vs.append(viol(f"decrypt returns plaintext although the sender key stated by the caller is not the sender's [{'a key set as decryption key' if keyring != 'bob alone' else 'one key'}]",
+                       f"{what}: returned {r.value!r}"))
+    return Outcome(f"sender:{'right' if stated.startswith('alice') else 'wrong'}:{'ok' if r.ok else 'rej:' + r.etype}", vs, nontrivial=(alg, kind, enc, form, skid_pos, keyring, stated))
+
+
 PARTS = [
     Part("faults", h_faults, bound={"quick": 1, "thorough": 2}, split_depth=4, budget={"quick": 2000, "thorough": 3000}),
     Part("recipient-sets", h_recipients, split_depth=3),
+    Part("sender-named-by-the-token", h_sender_named, split_depth=3),
     Part("sequences", h_sequences, split_depth=3),
     Part("plaintexts-just-above-the-decompression-limit", h_zip_limit, split_depth=2),
     Part("thread-schedules", h_threads, bound={"quick": 1, "thorough": 2}, split_depth=2, budget={"quick": 2000, "thorough": 3000}, engine="E3"),
